@@ -741,6 +741,13 @@ impl img::DiskImage for Woz2 {
             error!("WOZ uses flux data (not supported)");
             return Err(DiskStructError::IllegalValue);
         }
+        match (ans.info.disk_type,ans.info.disk_sides) {
+            (1,1) | (2,1) | (2,2) => {},
+            _ => {
+                error!("WOZ disk type {} with {} sides is not supported",ans.info.disk_type,ans.info.disk_sides);
+                return Err(DiskStructError::IllegalValue);
+            }
+        }
         if u32::from_le_bytes(ans.info.id)>0 && u32::from_le_bytes(ans.tmap.id)>0 && u32::from_le_bytes(ans.trks.id)>0 {
             ans.kind = match (ans.info.disk_type,ans.info.boot_sector_format,ans.info.disk_sides) {
                 (1,0,1) => img::names::A2_DOS33_KIND,
